@@ -54,6 +54,7 @@ import (
 	"log/slog"
 	"maps"
 	"net/http"
+	"slices"
 	"time"
 
 	"github.com/bartventer/httpcache/internal"
@@ -475,12 +476,36 @@ func (r *transport) backgroundRevalidate(
 			return
 		default:
 		}
+		// The response object handed to the caller is the caller's: work on a
+		// private copy of the entry, and only if the index still refers to it
+		// (it may have been invalidated, replaced or freshened meanwhile).
+		refs, err := r.cache.GetRefs(urlKey)
+		if err != nil {
+			errc <- err
+			return
+		}
+		refIndex := slices.IndexFunc(refs, func(ref *internal.ResponseRef) bool {
+			return ref.ResponseID == stored.ID
+		})
+		if refIndex < 0 {
+			return
+		}
+		own, err := r.cache.Get(stored.ID, req)
+		if err != nil {
+			errc <- err
+			return
+		}
+		if !own.RequestedAt.Equal(stored.RequestedAt) || !own.ReceivedAt.Equal(stored.ReceivedAt) {
+			return
+		}
 		revalCtx := internal.RevalidationContext{
 			URLKey:    urlKey,
 			Start:     start,
 			End:       end,
 			CCReq:     ccReq,
-			Stored:    stored,
+			Stored:    own,
+			Refs:      refs,
+			RefIndex:  refIndex,
 			Freshness: freshness,
 		}
 		//nolint:bodyclose // The response is not used, so we don't need to close it.
